@@ -186,6 +186,7 @@ type c16Fix struct {
 	hidx    map[string]int // header hash -> row index
 	midx    map[string]int // merkle root -> row index (first row having it)
 	env     string         // "st=<idx>:<parent idx or ->:<height>:<L|S|O>,..."
+	wedged  map[bool]bool  // per stack (auth on?): it stopped answering within the deadline once
 	admin   string
 }
 
@@ -368,7 +369,7 @@ func c16MetricsEngine(s *Stack) {
 
 func c16NewFix(c *Ctx, sh c16Shape, metricsOn bool) (*c16Fix, error) {
 	gin.DefaultErrorWriter = io.Discard
-	f := &c16Fix{shape: sh.name, hidx: map[string]int{}, midx: map[string]int{}, admin: config.DefaultAppToken}
+	f := &c16Fix{shape: sh.name, hidx: map[string]int{}, midx: map[string]int{}, admin: config.DefaultAppToken, wedged: map[bool]bool{}}
 	var err error
 	if metricsOn {
 		if _, on := metrics.Get(); !on {
@@ -432,9 +433,15 @@ func c16NewFix(c *Ctx, sh c16Shape, metricsOn bool) (*c16Fix, error) {
 	return f, nil
 }
 
+// close is bounded: a store that stopped answering must not wedge the end of the run
 func (f *c16Fix) close() {
-	f.off.Close()
-	f.on.Close()
+	if f.wedged[false] || f.wedged[true] {
+		return // goroutines are still blocked inside this store: leave it to the end of the process
+	}
+	c16Within(3*time.Second, func() {
+		f.off.Close()
+		f.on.Close()
+	})
 }
 
 func c16Digests(s *Stack) [3]string {
@@ -489,13 +496,67 @@ func c16BodyDocs(body string) []string {
 	return docs
 }
 
+// c16Deadline bounds every phase of one request (digest of the tables, ServeHTTP, digest + restore): a request may
+// legitimately wait for SQLite's 5 s busy timeout, nothing may wait longer.
+func c16Deadline() time.Duration {
+	if v, err := strconv.ParseFloat(os.Getenv("VERIF_C16_DEADLINE_S"), 64); err == nil && v > 0 {
+		return time.Duration(v * float64(time.Second))
+	}
+	return 7 * time.Second
+}
+
+// c16SizeAllowance: huge lists legitimately cost one or two SQL statements per element - 1 s per 100 kB of request.
+func c16SizeAllowance(r *c16Req) time.Duration {
+	n := len(r.Path) + len(r.Query)
+	for _, p := range r.Body {
+		n += len(p.S) * p.N
+	}
+	return time.Duration(n/100000) * time.Second
+}
+
+// c16Within runs fn in a goroutine and reports whether it finished within the deadline; an abandoned goroutine
+// stays blocked (on database/sql, typically) and is left behind - nothing later waits for it.
+func c16Within(d time.Duration, fn func()) bool {
+	done := make(chan struct{})
+	go func() {
+		defer close(done)
+		defer func() {
+			// an abandoned goroutine may wake up when the run is over and the stacks are gone: never let it take the
+			// process down (panics of ServeHTTP itself are recovered, and reported, inside fn)
+			if p := recover(); p != nil {
+				fmt.Fprintf(os.Stderr, "c16: recovered in a background phase: %v\n", p)
+			}
+		}()
+		fn()
+	}()
+	t := time.NewTimer(d)
+	defer t.Stop()
+	select {
+	case <-done:
+		return true
+	case <-t.C:
+		return false
+	}
+}
+
 // do performs the request in-process and projects the observable.
+//   NO-ANSWER ...                       the tables could not be read before the request, or ServeHTTP did not return
+//   <status> [docs] eff=unreadable      answered, but afterwards the tables cannot be read any more
 func (f *c16Fix) do(r *c16Req) (obs string, status int, raw string) {
 	s := f.off
 	if r.AuthOn {
 		s = f.on
 	}
-	d0 := c16Digests(s)
+	dl := c16Deadline()
+	if f.wedged[r.AuthOn] {
+		dl = dl / 4 // the stack already stopped answering once: do not spend the full wait again
+	}
+	serveDl := dl + c16SizeAllowance(r)
+	var d0, d1 [3]string
+	if !c16Within(dl, func() { d0 = c16Digests(s) }) {
+		f.wedged[r.AuthOn] = true
+		return "NO-ANSWER the tables cannot be read before the request: the store stopped answering after an earlier request on this stack", 0, ""
+	}
 	req := &http.Request{Method: r.Method, URL: &url.URL{Path: r.Path, RawQuery: r.Query}, Proto: "HTTP/1.1",
 		ProtoMajor: 1, ProtoMinor: 1, Header: http.Header{}, Host: "c16.test", RemoteAddr: "192.0.2.1:1234", RequestURI: r.Path}
 	if r.Query != "" {
@@ -512,26 +573,39 @@ func (f *c16Fix) do(r *c16Req) (obs string, status int, raw string) {
 	}
 	w := httptest.NewRecorder()
 	panicked := ""
-	func() {
+	if !c16Within(serveDl, func() {
 		defer func() {
 			if p := recover(); p != nil {
 				panicked = fmt.Sprint(p)
 			}
 		}()
 		s.Engine.ServeHTTP(w, req)
-	}()
-	d1 := c16Digests(s)
+	}) {
+		f.wedged[r.AuthOn] = true
+		return fmt.Sprintf("NO-ANSWER ServeHTTP did not return within %.0f s", serveDl.Seconds()), 0, ""
+	}
 	eff := []string{}
-	if d0[0] != d1[0] {
-		eff = append(eff, "hdr")
-	}
-	if d0[1] != d1[1] {
-		eff = append(eff, "tok")
-		s.c16Restore("tokens")
-	}
-	if d0[2] != d1[2] {
-		eff = append(eff, "wh")
-		s.c16Restore("webhooks")
+	var late []string // written by the goroutine only; read only when it finished in time
+	if c16Within(dl, func() {
+		e := []string{}
+		d1 = c16Digests(s)
+		if d0[0] != d1[0] {
+			e = append(e, "hdr")
+		}
+		if d0[1] != d1[1] {
+			e = append(e, "tok")
+			s.c16Restore("tokens")
+		}
+		if d0[2] != d1[2] {
+			e = append(e, "wh")
+			s.c16Restore("webhooks")
+		}
+		late = e
+	}) {
+		eff = late
+	} else {
+		f.wedged[r.AuthOn] = true
+		eff = []string{"unreadable"}
 	}
 	if len(eff) == 0 {
 		eff = []string{"none"}
@@ -541,6 +615,11 @@ func (f *c16Fix) do(r *c16Req) (obs string, status int, raw string) {
 	}
 	raw = w.Body.String()
 	return fmt.Sprintf("%d [%s] eff=%s", w.Code, strings.Join(c16BodyDocs(raw), ","), strings.Join(eff, "+")), w.Code, raw
+}
+
+// c16Stuck: the observable says that the stack stopped answering.
+func c16Stuck(obs string) bool {
+	return strings.HasPrefix(obs, "NO-ANSWER") || strings.HasSuffix(obs, "eff=unreadable")
 }
 
 // the routes of the API group this runner knows; a route registered in the engine that is missing here makes
@@ -746,9 +825,15 @@ func (ch *c16Child) exec(r *c16Req) (string, error) {
 		ch.crashes++
 		return "CRASH server-died (pipe closed before the request)", nil
 	}
+	wait := 3*c16Deadline() + c16SizeAllowance(r) + 15*time.Second
 	select {
 	case l, ok := <-ch.lines:
 		if ok {
+			if c16Stuck(l) {
+				// the child's stack stopped answering: report, then replace the child
+				ch.kill()
+				ch.crashes++
+			}
 			return l, nil
 		}
 		st := "?"
@@ -760,10 +845,10 @@ func (ch *c16Child) exec(r *c16Req) (string, error) {
 		ch.sweep()
 		ch.crashes++
 		return "CRASH server-died (" + st + ")", nil
-	case <-time.After(90 * time.Second):
+	case <-time.After(wait):
 		ch.kill()
 		ch.crashes++
-		return "CRASH server-hung (no answer within 90 s)", nil
+		return fmt.Sprintf("NO-ANSWER the child process serving the request did not answer within %.0f s (killed)", wait.Seconds()), nil
 	}
 }
 
@@ -796,7 +881,13 @@ func c16RunStore(c *Ctx, f *c16Fix, jobs []c16Job, childDir string, metricsOn bo
 	defer func() {
 		fmt.Fprintf(os.Stderr, "c16: store %s: classify %.1fs, in-process %.1fs, child %.1fs (%d child starts)\n", tag, tClass.Seconds(), tLocal.Seconds(), tChild.Seconds(), ch.starts)
 	}()
+	stuck := 0
 	for _, j := range jobs {
+		if stuck >= 3 {
+			// three requests without an answer are failures enough; every further one would only wait again
+			outs = append(outs, c16Out{skip: "not-sent-after-3-requests-without-answer"})
+			continue
+		}
 		j.r.Store = tag
 		tc := time.Now()
 		cl, route, skip := f.classify(j.r)
@@ -831,6 +922,9 @@ func c16RunStore(c *Ctx, f *c16Fix, jobs []c16Job, childDir string, metricsOn bo
 			tChild += time.Since(tq)
 		} else {
 			tLocal += time.Since(tq)
+		}
+		if c16Stuck(obs) {
+			stuck++
 		}
 		if route == "unrouted" {
 			// gin's own answers for unroutable paths are outside the model: only "no 5xx, nothing changed" is observed
